@@ -84,6 +84,10 @@ package run
 //@ ghost var GRruns int
 //@ ghost var GRsetupFailed bool
 //@ ghost var GRsummaries int
+//@ // GRwaited: a receive on the pool manager's completion channel completed (every worker has exited);
+//@ // GRtimedOut: a timer of at least the completion timeout, started after triggering ended, fired.
+//@ ghost var GRwaited bool
+//@ ghost var GRtimedOut bool
 //@
 //@ pred wfRun(r *Run) = r != nil && r.scenarioLogger != nil && r.views != nil && r.output != nil && r.metrics != nil && r.metrics.Iteration != nil && r.metrics.Setup != nil &&
 //@     r.result != nil && wfResult(r.result) && r.result.views != nil && r.result.progressStats != nil && r.trigger != nil && r.trigger.Trigger != nil &&
@@ -182,8 +186,11 @@ package run
 //@   assert before call context.WithTimeout : [deadline] arg1 == ((r.trigger.Duration > 0 && r.trigger.Duration < r.options.MaxDuration) ? r.trigger.Duration : r.options.MaxDuration) - 10000000
 //@   ghost before call dyn:Trigger : assert [one-pool-manager] GRruns == 0 ; GRruns = GRruns + 1
 //@   ghost after call dyn:Trigger : assume wfRun(r)
-//@   ghost at entry : GRruns = 0
+//@   ghost at entry : GRruns = 0 ; GRwaited = false ; GRtimedOut = false
+//@   ghost after call recv:(*PoolManager).WaitForCompletion : GRwaited = true
+//@   ghost after call recv:time.After : GRtimedOut = GRtimedOut || arg0 >= r.waitForCompletionTimeout
 //@   modifies allbut(GRstage, GRsetups, GRteardowns, GRsetupFailed, GRsummaries)
+//@   ensures [iterations-finished-or-completion-timeout] GRwaited || GRtimedOut
 //@
 //@ func (*Run).Do
 //@   props C05 C06 C16
